@@ -2,6 +2,7 @@
 //   (valuations_unconstrained nv)   ValuationsOfClauseIterator::new_unconstrained(nv)
 //   (valuations_deprecated nv)      BddValuationIterator::new(nv)   (deprecated wrapper)
 //   (valuations_empty)              ValuationsOfClauseIterator::empty()
+//   (clause_valuations_adapters pv nv k)  count / last / nth(1) / size_hint of the iterator after k steps
 //   (iter_after_end b)              the four iterators of a Bdd drained and asked again
 //   (clause_valuations_clone pv nv k)  k items, then the rest of a `clone()` of the iterator: (P first-k rest-of-clone)
 use crate::ops::*;
@@ -36,6 +37,21 @@ pub fn run(c: &[S]) -> Option<S> {
             }
             let rest: Vec<S> = it.clone().map(|p| e_valuation(&p)).collect();
             S::list("P", vec![S::list("L", first), S::list("L", rest)])
+        }
+        // the provided Iterator methods on a PARTIALLY consumed clause iterator: after k calls of next(), on clones of the rest:
+        // (P count last nth(1) size_hint-consistent)
+        "clause_valuations_adapters" => {
+            let mut it = ValuationsOfClauseIterator::new(d_pv(&a[0]), d_u16(&a[1]));
+            for _ in 0..d_usize(&a[2]) {
+                it.next();
+            }
+            let rest: Vec<BddValuation> = it.clone().collect();
+            let count = it.clone().count();
+            let last = it.clone().last();
+            let nth1 = it.clone().nth(1);
+            let (lo, hi) = it.size_hint();
+            let hint_ok = lo <= rest.len() && hi.map(|h| rest.len() <= h).unwrap_or(true);
+            S::list("P", vec![S::int(count), e_opt(&last, e_valuation), e_opt(&nth1, e_valuation), S::boolean(hint_ok)])
         }
         // every iterator of a Bdd drained, then asked three more times: (L (P count still-none) x4) for sat_valuations,
         // sat_clauses, into_sat_valuations, into_sat_clauses
